@@ -25,7 +25,11 @@ class rlbox_bm
 public:
   using T_LongLongType = int64_t;
   using T_LongType = int32_t;
+#ifdef BM_WIDE_INT
+  using T_IntType = int64_t;   // a guest whose int is wider than the application's: guest -> application narrowing can be refused
+#else
   using T_IntType = int32_t;
+#endif
   using T_PointerType = uint32_t;
   using T_ShortType = int16_t;
   using needs_internal_lookup_symbol = void;
